@@ -107,8 +107,11 @@ def build_driver(chk, top, gen, libdir, dom, cpp, facts, allmap):
         with cf.ThreadPoolExecutor(N) as ex:
             os_ = list(ex.map(one, range(N)))
         objs, _ = T.build_objects(top, gen, libdir, ["implementation_common", dom], chk.log)
-        libdir2 = common.build_lib("mpz")
-        rc, out = common.sh(["g++"] + os_ + objs + [os.path.join(libdir2, "libppl_verif.a"), "-lgmpxx", "-lgmp", "-o", exe + ".tmp"], timeout=1800)
+        for attempt in range(4):      # the library cache may be evicted by a concurrent run on another tree: rebuild + retry
+            libdir2 = common.build_lib("mpz")
+            rc, out = common.sh(["g++"] + os_ + objs + [os.path.join(libdir2, "libppl_verif.a"), "-lgmpxx", "-lgmp", "-o", exe + ".tmp"], timeout=1800)
+            if rc == 0 or "cannot find" not in out:
+                break
         if rc != 0:
             raise common.BuildError("linking the driver for %s failed:\n%s" % (dom, out[-3000:]))
         os.rename(exe + ".tmp", exe)
@@ -127,7 +130,11 @@ def build_misc(chk, top, gen, libdir):
     if not os.path.exists(exe):
         objs, _ = T.build_objects(top, gen, libdir, ["implementation_common", "Polyhedron"], chk.log)
         flags = ["-std=c++11", "-DHAVE_CONFIG_H", "-I" + os.path.join(common.VERIF, "harness")] + T.include_flags(gen, libdir) + ["-O0", "-frounding-math", "-w"]
-        rc, out = common.sh(["g++"] + flags + [src] + objs + [os.path.join(libdir, "libppl_verif.a"), "-lgmpxx", "-lgmp", "-o", exe + ".tmp"], timeout=1800)
+        for attempt in range(4):
+            libdir2 = common.build_lib("mpz")
+            rc, out = common.sh(["g++"] + flags + [src] + objs + [os.path.join(libdir2, "libppl_verif.a"), "-lgmpxx", "-lgmp", "-o", exe + ".tmp"], timeout=1800)
+            if rc == 0 or "cannot find" not in out:
+                break
         if rc != 0:
             raise common.BuildError("harness run_cif_misc.cc does not compile/link:\n%s" % out[-3000:])
         os.rename(exe + ".tmp", exe)
